@@ -7,6 +7,7 @@ the call's target.  Rules that read an anchor through such a body see a step tha
 where it used to be.  Recursion is cut by the call stack; coroutine callees (yield) and callees without MIR are left
 as calls."""
 import copy
+import re
 
 from .cfg import Body
 
@@ -28,7 +29,7 @@ def _mp_place(pl, off):
 
 def _mp_op(op, off):
     if op[0] == "k":
-        return op
+        return list(op)          # a copy: promoted references are renumbered per inlining site
     return [op[0], _mp_place(op[1], off)]
 
 
@@ -66,6 +67,21 @@ def _mp_term(t, off, boff):
     if k in ("ret", "unreachable", "resume"):
         return list(t)
     return None
+
+
+_PROM = re.compile(r"promoted\[(\d+)\]")
+
+
+def _renumber_promoted(x, poff):
+    if isinstance(x, list):
+        if len(x) >= 2 and x[0] == "k" and isinstance(x[1], str) and "promoted[" in x[1]:
+            x[1] = _PROM.sub(lambda m: "promoted[%d]" % (int(m.group(1)) + poff), x[1])
+            return
+        for y in x:
+            _renumber_promoted(y, poff)
+    elif isinstance(x, dict):
+        for y in x.values():
+            _renumber_promoted(y, poff)
 
 
 def inlined_mir(F, path, allow, depth=2, _stack=()):
@@ -121,6 +137,13 @@ def inlined_mir(F, path, allow, depth=2, _stack=()):
             newblocks.append(nb)
         if not ok:
             continue
+        # the callee's promoted constants keep their meaning: append them and renumber the references
+        cprom = cm.get("prom") or []
+        if cprom:
+            poff = len(mir.get("prom") or [])
+            mir["prom"] = list(mir.get("prom") or []) + list(cprom)
+            if poff:
+                _renumber_promoted(newblocks, poff)
         mir["locals"].extend(cm["locals"])
         mir["blocks"].extend(newblocks)
         blk = mir["blocks"][bi]
